@@ -472,6 +472,17 @@ def y5(rep, src):
             if not uses:
                 rep.violation("Y5", "JoinBuilder::and|" + v, "the arm for %s does not conjoin the added expression with the existing ON clause" % v, f.where())
         rep.instance("Y5", "JoinBuilder::and|" + v, None)
+    # variants without an ON clause (Cross): the added condition must not be dropped silently either
+    for v in [x["name"] for x in enum["variants"] if not x["fields"]]:
+        arm = None
+        for a in ms[0]["arms"]:
+            for p in walk(a["pat"]):
+                if p["k"] == "path" and p["segs"][-2:] == ["JoinOperator", v]:
+                    arm = a
+        keeps = arm is not None and any(q["k"] == "path" and q["segs"] == [param] for q in walk(arm["body"]))
+        rep.instance("Y5", "JoinBuilder::and|" + v, {"variant": v, "explicit_arm": arm is not None, "keeps_condition": bool(keeps)})
+        if not keeps:
+            rep.violation("Y5", "JoinBuilder::and|" + v, "JoinOperator::%s falls to the pass-through arm: `.and(expr)` silently drops the condition (PrivacyUnitTracking::join adds the unit-id equality through it)" % v, f.where())
 
 
 def b1(rep, mir, prefixes, rid="B1"):
